@@ -50,6 +50,7 @@ def run(run):
     _r3_chunk(run)
     _r4_bounds(run)
     _r5_r6_refinement(run)
+    _r7_union_filter(run)
 
 
 def _r1_purity(run):
@@ -414,6 +415,94 @@ def _renorm_c07(t):
         return t
 
 
+def _late_bound_closures(fnode):
+    """Lambdas / nested functions created inside a loop that read a variable the loop body assigns, without binding it
+    (default argument): when they run after the loop they all see the value of the last iteration."""
+    out = []
+    for loop in [n for n in ast.walk(fnode) if isinstance(n, (ast.For, ast.While))]:
+        assigned = set()
+        for n in ast.walk(loop):
+            if isinstance(n, ast.Name) and isinstance(n.ctx, ast.Store):
+                assigned.add(n.id)
+        for n in ast.walk(loop):
+            if isinstance(n, (ast.Lambda, ast.FunctionDef)) and n is not fnode:
+                a = n.args
+                bound = {x.arg for x in a.posonlyargs + a.args + a.kwonlyargs}
+                body_nodes = [n.body] if isinstance(n, ast.Lambda) else n.body
+                local = set()
+                for b in body_nodes:
+                    for x in ast.walk(b):
+                        if isinstance(x, ast.Name) and isinstance(x.ctx, ast.Store):
+                            local.add(x.id)
+                free = set()
+                for b in body_nodes:
+                    for x in ast.walk(b):
+                        if isinstance(x, ast.Name) and isinstance(x.ctx, ast.Load) and x.id not in bound and x.id not in local:
+                            free.add(x.id)
+                late = sorted(free & assigned)
+                if late:
+                    out.append((n, late))
+    return out
+
+
+def _r7_union_filter(run):
+    """The cascade after a multi-image TOAST tiling visits a tile iff *some* image's filter accepted it."""
+    project = run.project
+    q = "toasty.fits_tiler.FitsTiler._tile_toast"
+    f = project.funcs.get(q)
+    if f is None:
+        run.undecided("C07.R7", None, None, "FitsTiler._tile_toast not found", kind="anchor", construct="FitsTiler._tile_toast", file="toasty/fits_tiler.py")
+        return
+    run.note_func(f)
+    ev = sym.make_evaluator(project, "toasty.fits_tiler", [])
+    r = ev.run(f.node)
+    late = _late_bound_closures(f.node)
+    # late binding matters only if the closure is used after its iteration: it is, when it (or something built from it) is the cascade's filter
+    casc = [e for e in r.events if e.kind == "call" and e.term[1][0] == "attr" and e.term[1][2] == "cascade"]
+    if not casc:
+        run.undecided("C07.R7", f, None, "no cascade call in _tile_toast", kind="no-cascade")
+        return
+    flt = dict(casc[0].term[3]).get("tile_filter")
+    if flt is None:
+        run.holds("C07.R7", f, casc[0].node, "the cascade runs unfiltered (every tile is visited)")
+        return
+    if late:
+        n, names = late[0]
+        run.violated("C07.R7", f, n, "a closure created inside the per-image loop reads %s, which the loop reassigns, without binding it: when the cascade filter runs, "
+                     "every such closure sees the *last* image's value, so tiles covered only by earlier images are skipped by the cascade" % names, kind="late-bound-filter")
+        return
+    # recognised form: per-image filters appended to a list L (unconditionally, in the loop over all images); the cascade filter is a
+    # nested function returning True as soon as one element of L accepts the tile
+    img_loops = [(k, it, nd) for k, it, nd in r.loops if it[0] == "call" and it[1][0] == "attr" and it[1][2] == "images"]
+    filt_calls = [e for e in r.events if e.kind == "call" and e.term[1][0] == "attr" and e.term[1][2] == "filter" and any(("loop", k) in e.pc for k, it, nd in img_loops)]
+    apps = [e for e in r.events if e.kind == "call" and e.term[1][0] == "attr" and e.term[1][2] == "append" and e.term[2]
+            and any(e.term[2][0] == fc.term or (fc.extra is not None and e.term[2][0] == fc.extra) for fc in filt_calls)]
+    ok = False
+    why = "per-image filters are not collected"
+    if img_loops and filt_calls and apps:
+        a0 = apps[0]
+        L = a0.term[1][1]
+        uncond = not [c for c in a0.pc if c[0] != "loop"] and any(("loop", k) in a0.pc for k, it, nd in img_loops)
+        why = "the per-image filter is appended only conditionally" if not uncond else "the cascade filter is not `any filter in the list accepts`"
+        if uncond and flt[0] == "sym" and flt[1].startswith("<closure ") and flt[1][9:-1] in r.nested:
+            fn_, env_ = r.nested[flt[1][9:-1]]
+            rc = ev.run(fn_, env=env_)
+            tile_p = ("sym", fn_.args.args[0].arg) if fn_.args.args else None
+            trues = [(pc, t) for pc, t, nd in rc.returns if t == sym.TRUE]
+            falses = [(pc, t) for pc, t, nd in rc.returns if t == sym.FALSE]
+            loopsL = [k for k, it, nd in rc.loops if it == L]
+            if tile_p is not None and loopsL and len(trues) == 1 and len(falses) == 1 and len(rc.returns) == 2:
+                k = loopsL[0]
+                el = ("elem", L)
+                want = ("call", el, (tile_p,), ())
+                pc_t = [c for c in trues[0][0] if c[0] != "loop"]
+                ok = ("loop", k) in trues[0][0] and boolalg.equiv(boolalg.conj(pc_t), want) is True and not [c for c in falses[0][0] if c[0] == "loop"]
+    if ok:
+        run.holds("C07.R7", f, casc[0].node, "cascade filter = some per-image footprint filter accepts the tile (all images' filters collected)")
+    else:
+        run.undecided("C07.R7", f, casc[0].node, "the cascade's tile filter is built in a form the rule does not know (%s)" % why, kind="union-filter-shape")
+
+
 def _r5_r6_refinement(run):
     project = run.project
     ib = project.fn(S + ".WcsSampler._image_bounds")
@@ -421,6 +510,7 @@ def _r5_r6_refinement(run):
     ev_outer = sym.make_evaluator(project, S, [])
     ev_outer.inline_closures = False
     rb = ev_outer.run(ib.node)
+    ev._closures = dict(ev_outer._closures)      # sibling helper closures are inlined when the refinement closures call them
     cenv = rb.nested["refine_lon"][1] if "refine_lon" in rb.nested else (rb.env or {})
     c1, c2 = _coarse_axes(rb, cenv)
     n_lin = 0
@@ -573,6 +663,21 @@ def _count_lower_bound(n, lo, hi):
                         inner = inner[2][0]
                     if inner == sym.sub(hi, lo):
                         return ("ok", "") if const >= 1 else ("bad", "ceil(hi - lo) + %s can be 1 while hi != lo" % const)
+    # int(round(hi - lo)) + k: round() is 0 for spans under half a pixel, so the count is only bounded below by k
+    if n[0] == "poly":
+        d_ = dict(n[1])
+        const_ = d_.get((), 0)
+        rest_ = {m: c for m, c in d_.items() if m != ()}
+        if len(rest_) == 1:
+            (m_, c_), = rest_.items()
+            if c_ == 1 and len(m_) == 1 and m_[0][1] == 1 and m_[0][0][0] == "call":
+                inner_ = m_[0][0]
+                rounded = False
+                while inner_[0] == "call" and show(inner_[1]) in ("int", "np.round", "round", "np.rint", "np.floor", "math.floor") and inner_[2]:
+                    rounded = rounded or show(inner_[1]) in ("np.round", "round", "np.rint", "np.floor", "math.floor")
+                    inner_ = inner_[2][0]
+                if rounded and inner_ == sym.sub(hi, lo):
+                    return ("ok", "") if const_ >= 2 else ("bad", "round()/floor() of a span under half a pixel is 0, so the count can be %s while hi != lo" % const_)
     if n[0] == "call" and show(n[1]) == "int":
         inner = n
         while inner[0] == "call" and show(inner[1]) in ("int", "np.ceil", "math.ceil") and inner[2]:
